@@ -179,8 +179,9 @@ def _decorators(fn: ast.FunctionDef):
 
 
 class Project:
-    def __init__(self, repo: str = REPO):
+    def __init__(self, repo: str = REPO, overlay: dict | None = None):
         self.repo = repo
+        self.overlay = overlay or {}  # relpath -> source text (self-test mutants)
         self.modules: dict[str, Module] = {}
         self.classes: list[ClassInfo] = []
         self.by_name: dict[str, list[ClassInfo]] = {}
@@ -208,8 +209,12 @@ class Project:
                 if parts[-1] == "__init__":
                     parts = parts[:-1]
                 name = ".".join(parts)
-                with open(path, encoding="utf-8") as fh:
-                    src = fh.read()
+                if rel in self.overlay:
+                    src = self.overlay[rel]
+                else:
+                    with open(path, encoding="utf-8", newline="") as fh:
+                        src = fh.read()
+                src = src.replace("\r\n", "\n")
                 try:
                     tree = ast.parse(src, filename=rel)
                 except SyntaxError as exc:
